@@ -1477,6 +1477,18 @@ func (r *EngineRunner) Exec(f []string) (res string) {
 	case "backup":
 		dst := filepath.Join(r.Root, f[2])
 		r.dirs[f[2]] = dst
+		if len(f) > 3 {
+			// the same directory, spelled differently by the caller of Backup
+			sep := string(os.PathSeparator)
+			switch atoi(f[3]) {
+			case 1:
+				dst += sep
+			case 2:
+				dst = r.Root + sep + "." + sep + f[2]
+			case 3:
+				dst = r.Root + sep + sep + f[2]
+			}
+		}
 		err := r.db.Backup(dst)
 		r.ref.backup(r, f[2])
 		if err != nil {
